@@ -1336,3 +1336,108 @@ class TakeBroadcastNative(Contract):
                 yield "axis-holds-the-selected-labels", list(result.axes[0].values) == list(labels[d][pos[d]])
         yield "metadata-kept", dict(result.attrs) == {"units": "K"}
         yield "operand-untouched", same(a.values, env["before"]) and all(list(a.axes[d].values) == list(labels[d]) for d in range(case["rank"]))
+
+
+class IndexFormsNative(Contract):
+    """BOUNDED STAND-IN ONLY (never counted as proved).  Equivalent SPELLINGS of one index give one result: a boolean mask as a
+    Python list / a tuple-free ndarray; labels as list / tuple-in-a-list / ndarray / range; slice bounds as Python numbers /
+    NumPy scalars of every width (np.int64, np.int32, np.float64, np.float32 for exactly representable bounds) -- through
+    a[...], take(axis=), take({dim: idx}), .loc, .sel, and .ix for positions.  The reference spelling (ndarray / Python number)
+    is the one the proved contracts of C01 / C02 are about; Python-level type tests on the index (hasattr dtype, isinstance
+    int / float) are invisible to the symbolic engine, whose index values are its own wrappers.  [C01, C02]"""
+    target = "dimarray.core.bases:AbstractHasAxes._get_indices"
+    props = ("C01", "C02")
+    native_only = True
+
+    def cases(self, tier):
+        for form in ("mask-list", "labels-tuple-range", "slice-numpy-scalars", "slice-numpy-scalars-int-axis", "position-numpy-ints"):
+            for rank in (1, 2):
+                yield {"name": "%s-r%d" % (form, rank), "form": form, "rank": rank}
+
+    def setup(self, S, case):
+        from .common import assume_order
+        L0 = S.array1d("lab0", "f")
+        assume_order(S, L0, "inc" if case["form"].startswith("slice") else "unique")
+        S.assume(S.n(L0) >= 1, "non-empty")
+        labels = [L0]
+        if case["rank"] == 2:
+            L1 = S.array1d("lab1", "O")
+            assume_order(S, L1, "unique")
+            S.assume(S.n(L1) >= 1, "non-empty")
+            labels.append(L1)
+        return {"labels": labels, "data": S.arraynd("data", "f", tuple(S.n(L) for L in labels)), "mask": S.array1d("mask", "b", n=S.n(L0)),
+                "q": S.array1d("q", "I"), "lo": S.int("lo"), "hi": S.int("hi")}
+
+    def call(self, fn, env):
+        import numpy as np
+        S, case = env["S"], env["case"]
+        labs = [np.asarray(L, dtype=float) if d == 0 else np.asarray(L) for d, L in enumerate(env["labels"])]
+        if case["form"] == "slice-numpy-scalars-int-axis":
+            labs[0] = (np.arange(len(labs[0])) * 2 + 1).astype(np.int64)          # 1, 3, 5, ...: an INTEGER axis
+        a = S.da.DimArray(np.array(env["data"], dtype=float), axes=[("x%d" % d, L.copy()) for d, L in enumerate(labs)])
+        n = len(labs[0])
+        mask = np.asarray(env["mask"], dtype=bool)
+        q = [int(t) % n for t in np.asarray(env["q"])]
+        form = case["form"]
+        pairs = []          # (reference spelling, [equivalent spellings])
+        if form == "mask-list":
+            ref = lambda: a[mask]
+            alts = [lambda: a[mask.tolist()], lambda: a.take(mask.tolist(), axis="x0"), lambda: a.take({"x0": mask.tolist()}), lambda: a.sel(x0=mask.tolist()),
+                    lambda: a.loc[mask.tolist()], lambda: a.ix[mask.tolist()], lambda: a.take(mask.tolist(), axis=0, indexing="position")]
+            pairs.append((ref, alts))
+        elif form == "labels-tuple-range":
+            labsel = labs[0][q] if q else labs[0][:0]
+            ref = lambda: a[np.asarray(labsel)]
+            alts = [lambda: a[labsel.tolist()], lambda: a.take(labsel.tolist(), axis="x0"), lambda: a.take({"x0": tuple(labsel.tolist())}) if len(labsel) else a[labsel.tolist()],
+                    lambda: a.sel(x0=labsel.tolist()), lambda: a.loc[labsel.tolist()]]
+            pairs.append((ref, alts))
+            pairs.append((lambda: a.ix[np.asarray(q, dtype=int)] if q else a.ix[[]], [lambda: a.ix[q], lambda: a.ix[range(0)] if not q else a.ix[list(q)],
+                                                                                       lambda: a.take(q, axis=0, indexing="position")]))
+        elif form in ("slice-numpy-scalars", "slice-numpy-scalars-int-axis"):
+            lo, hi = int(env["lo"]) % (2 * n + 2) - 1, int(env["hi"]) % (2 * n + 2) - 1          # small integers around the labels' range
+            if form == "slice-numpy-scalars":
+                labs0 = labs[0]
+                # bounds on / between the labels, chosen exactly representable in float32 (integers and halves)
+                lo, hi = float(np.floor(labs0.min())) + lo * 0.5, float(np.floor(labs0.min())) + hi * 0.5
+            ref = lambda: a[float(lo):float(hi)] if form == "slice-numpy-scalars" else a[int(lo):int(hi)]
+            scal = [np.float64, np.float32] if form == "slice-numpy-scalars" else [np.int64, np.int32, np.float64, np.float32, np.uint8 if lo >= 0 and hi >= 0 else np.int16]
+            alts = []
+            for t in scal:
+                alts.append(lambda t=t: a[t(lo):t(hi)])
+                alts.append(lambda t=t: a.loc[t(lo):t(hi)])
+                alts.append(lambda t=t: a.sel(x0=slice(t(lo), t(hi))))
+                alts.append(lambda t=t: a[t(lo):])
+                alts.append(lambda t=t: a[:t(hi):-1] if False else a[:t(hi)])
+            pairs.append((ref, alts[0::5] + alts[1::5] + alts[2::5]))
+            pairs.append((lambda: a[(float(lo) if form == "slice-numpy-scalars" else int(lo)):], alts[3::5]))
+            pairs.append((lambda: a[:(float(hi) if form == "slice-numpy-scalars" else int(hi))], alts[4::5]))
+        else:
+            p = q[0] if q else 0
+            pairs.append((lambda: a.ix[p], [lambda: a.ix[np.int64(p)], lambda: a.ix[np.int32(p)], lambda: a.take(np.int64(p), axis=0, indexing="position"), lambda: a.isel(x0=np.int64(p))]))
+            pairs.append((lambda: a.ix[p:], [lambda: a.ix[np.int64(p):], lambda: a.isel(x0=slice(np.int64(p), None))]))
+        env["pairs"] = pairs
+        return a
+
+    def post(self, S, case, env, result):
+        import numpy as np
+
+        def norm(x):
+            if S.is_dimarray(x):
+                v = np.asarray(x.values)
+                return ("da", tuple(x.dims), [[repr(t) for t in list(ax.values)] for ax in x.axes], v.shape, [repr(t) for t in v.ravel().tolist()])
+            return ("py", repr(x))
+
+        def run(f):
+            try:
+                return ("ok", norm(f()))
+            except Exception as e:
+                return ("raises", type(e).__name__)
+        ok, detail = True, None
+        for ref, alts in env["pairs"]:
+            r = run(ref)
+            for i, f in enumerate(alts):
+                o = run(f)
+                if o != r and ok:
+                    ok, detail = False, (i, str(r)[:120], str(o)[:120])
+        env["detail"] = detail
+        yield "every-spelling-gives-the-reference-spellings-result", ok
